@@ -297,6 +297,33 @@ func RunCheck(opt Options) int {
 		if opt.Verbose {
 			fmt.Printf("loaded %v in %.1fs\n", patterns, time.Since(t0).Seconds())
 		}
+		// an interface-method contract written in one of the loaded packages must name an interface method that exists
+		for _, key := range cs.order {
+			fc := cs.byName[key]
+			if !strings.HasPrefix(fc.Header, "interface ") || !strings.HasPrefix(fc.File, opt.Repo) {
+				continue
+			}
+			rel, _ := filepath.Rel(opt.Repo, filepath.Dir(fc.File))
+			if m := moduleFor(opt.Repo, rel); m.dir != mdir {
+				continue
+			}
+			inPatterns := false
+			for _, t := range tg {
+				if t.rel == rel {
+					inPatterns = true
+				}
+			}
+			if !inPatterns {
+				continue
+			}
+			name := strings.TrimSpace(strings.TrimPrefix(fc.Header, "interface "))
+			k := strings.LastIndex(name, ".")
+			if k < 0 || !ifaceMethodExists(ld.prog, name[:k], name[k+1:]) {
+				fmt.Printf("CONTRACT-STALE: interface contract %q (%s:%d) matches no interface method in the loaded program\n", name, fc.File, fc.Line)
+				ob := &Obligation{Name: name + "#missing", Kind: "subset", Func: name, Clause: "interface method under contract not found", pairs: [][2]*Term{{True, False}}}
+				allObs = append(allObs, obResult{ob, fc})
+			}
+		}
 		// every module function that stores to a volatile field must keep its relation: writers without a contract for
 		// this property are verified too (only their `volatile` obligations count)
 		if opt.OnlyFunc == "" {
@@ -1054,6 +1081,28 @@ func (v *Verifier) VerifyFunction(fn *ssa.Function, fc *FuncContract) (err error
 		}
 	}
 	return nil
+}
+
+// ifaceMethodExists: some named interface type called typeKey (pkg.Type) in the program has method `method`.
+func ifaceMethodExists(prog *ssa.Program, typeKey, method string) bool {
+	for _, p := range prog.AllPackages() {
+		for _, m := range p.Members {
+			t, ok := m.(*ssa.Type)
+			if !ok {
+				continue
+			}
+			it, ok := under(t.Type()).(*types.Interface)
+			if !ok || typeName(t.Type()) != typeKey {
+				continue
+			}
+			for i := 0; i < it.NumMethods(); i++ {
+				if it.Method(i).Name() == method {
+					return true
+				}
+			}
+		}
+	}
+	return false
 }
 
 // storesToField: fn contains a store to field `field` of the struct type named typeKey (pkg.Type).
